@@ -8,7 +8,7 @@ import common
 import gen
 import svgcanon
 from common import hx, unhx
-from props.c15 import cols
+from props.c15 import cols, blank_text, gen_row
 from runner import PropertyCheck, Failure, Disagreement
 
 
@@ -43,6 +43,9 @@ def gen_text(rng, draw):
         rows.append("".join(rng.choice(alphabet) for _ in range(n)).rstrip())
     if rng.chance(1, 3):
         rows.append("-" * rng.range(1, 14))
+    if rng.chance(1, 5):
+        # a row with quoted regions (their content is text whatever it is made of; `\"` stays verbatim)
+        rows.insert(rng.below(len(rows) + 1), gen_row(rng, 2).replace("{", "(").replace("}", ")"))
     return "\n".join(rows)
 
 
@@ -52,7 +55,8 @@ class Check(PropertyCheck):
     assumptions = [
         "whole-pipeline model tied to the implementation end to end (bytes)",
         "display widths (unicode-width) supplied by the real crate per case",
-        "inputs of the oracle carry no quotes, braces or legend (those channels are C15/C16)",
+        "inputs of the oracle carry no braces or legend (those channels are C16); quoted regions are read the way "
+        "escape_line reads them (C15)",
     ]
 
     def rule(self):
@@ -120,7 +124,20 @@ class Check(PropertyCheck):
                 for ch in row:
                     grid[(col, y)] = ch
                     col += cols(ch, wd)
-            must = set(k for k, ch in grid.items() if ch not in draw and not ws.get(ord(ch), False) and ch != "\0")
+            # quoted regions: one text element anchored at the opening quote, showing the characters after it
+            openq = {}
+            inside = set()
+            quotes = set()
+            for (qc, qy, content) in blank_text(t, wd)[1]:
+                openq[(qc, qy)] = content
+                quotes.add((qc, qy))
+                c2 = qc + 1
+                for ch in content:
+                    inside.add((c2, qy))
+                    c2 += cols(ch, wd)
+                quotes.add((c2, qy))
+            must = set(k for k, ch in grid.items() if k not in quotes and ch != "\0" and not ws.get(ord(ch), False)
+                       and (k in inside or ch not in draw))
             if must:
                 self.nontrivial.add(t)
             if i < 3:
@@ -136,6 +153,11 @@ class Check(PropertyCheck):
                     bad = ("text is not anchored at the anchor point of a cell", e)
                     break
                 col = int(cx)
+                if (col, int(cy)) in openq:
+                    if e.text != openq[(col, int(cy))]:
+                        bad = ("quoted text shows %r where the input has %r" % (e.text, openq[(col, int(cy))]), e)
+                        break
+                    col += 1
                 for ch in e.text:
                     if grid.get((col, int(cy))) != ch:
                         bad = ("text shows %r where the input has %r at column %d" % (ch, grid.get((col, int(cy))), col), e)
